@@ -101,7 +101,7 @@ fn split_txns(wire: &[Wire]) -> Vec<Txn> {
     for w in wire {
         match w {
             Wire::Send { data, .. } => out.push(Txn { cmd: data.clone(), recvs: vec![] }),
-            Wire::Recv { buf_len, res } => {
+            Wire::Recv { buf_len, res, .. } => {
                 if let Some(t) = out.last_mut() {
                     t.recvs.push((*buf_len, res.clone()));
                 }
